@@ -828,11 +828,20 @@ class ExcludeRegionState(object):  # pylint: disable=too-many-instance-attribute
             "G92 E{e}".format(e=self.position.E_AXIS.nativeToLogical())
         )
 
+        def targetCoordinate(axis, lastAxis):
+            """Coordinate to send to move the tool from its physical position to the new one."""
+            if (axis.absoluteMode):
+                return axis.nativeToLogical()
+
+            # Relative positioning: the printer expects the distance from where the tool
+            # physically is, which is the position it had before entering the excluded region
+            return (axis.current - lastAxis.current) / axis.unitMultiplier
+
         newZ = self.position.Z_AXIS.nativeToLogical()
         oldZ = self.lastPosition.Z_AXIS.nativeToLogical()
         moveZcmd = "G0 F{f} Z{z}".format(
             f=self.feedRate / self.feedRateUnitMultiplier,
-            z=newZ
+            z=targetCoordinate(self.position.Z_AXIS, self.lastPosition.Z_AXIS)
         )
 
         if (newZ > oldZ):
@@ -845,8 +854,8 @@ class ExcludeRegionState(object):  # pylint: disable=too-many-instance-attribute
             # Use G0 ("fast" linear move) as this is a non-extruding move
             "G0 F{f} X{x} Y{y}".format(
                 f=self.feedRate / self.feedRateUnitMultiplier,
-                x=self.position.X_AXIS.nativeToLogical(),
-                y=self.position.Y_AXIS.nativeToLogical()
+                x=targetCoordinate(self.position.X_AXIS, self.lastPosition.X_AXIS),
+                y=targetCoordinate(self.position.Y_AXIS, self.lastPosition.Y_AXIS)
             )
         )
 
